@@ -81,6 +81,8 @@ def eval_cases(prop, stream, cases):
     fmap = dict(cases)
     for cid, (m, im) in res.items():
         fields = fmap[cid]
+        if im == "SKIPPED":
+            continue    # the harness stopped evaluating this shard after several hangs/aborts (reported on their own cases)
         why = prop.oracle(stream, fields, im)
         if not why and m != im and stream in getattr(prop, "spec_streams", ()):
             # the model side of this stream is the specification (a theorem's right-hand side)
